@@ -231,6 +231,9 @@ func propC03(run *Run, n int) {
 			cfg = NastyCfg()
 		}
 		cfg.ScalarBias = 3
+		if r.Chance(1, 4) {
+			cfg = DeepCfg()
+		}
 		a, b := cfg.Pair(r)
 		dw := implDiff(OptNone, a.Wire(), b.Wire())
 		hs := splitHunks(dw)
@@ -404,7 +407,7 @@ func addC06Case(run *Run, wrap string, a, b *Val, pre int, w func(*Val) *Val) {
 func propC07(run *Run, n int) {
 	run.rule = "random (a, b) x {list, SET, MULTISET, SetKeys, MERGE}; per hunk facts and every leave-one-out sub-diff applied by the implementation; non-trivial = at least two hunks (leave-one-out is meaningful); distinct = distinct (options, a, b)"
 	r := NewRng(run.Seed)
-	choices := coreOptChoices()[:7]
+	choices := coreOptChoices()[:10]
 	for i := 0; i < n; i++ {
 		ch := choices[r.Intn(len(choices))]
 		cfg := ch.cfg()
